@@ -47,7 +47,7 @@ def fail(text):
 TEXTS = ['a', 'hello world', '', ' ', 'trailing  ', '  lead', 'two\nlines', 'end\n', '\n', '\n\n', 'tab\there', 'cr\rret', 'naïve ✓', 'x' * 30, '0', 'a \n b  \n']
 SEPS = [' ', '', '-', ', ', '\n']
 ENDS = ['\n', '', '!', ' ', '\n\n', ' \n']
-PROMPTS = ['', 'p> ', 'Name: ', 'line\nprompt ']
+PROMPTS = ['', 'p> ', 'Name: ', 'line\nprompt ', 0, None, False, 7, 0.0, [], 'ok?']     # input() shows str(prompt) whatever object it is given
 INPUT_VALUES = ['5', 'hello', '', ' spaced ', '0', 'x y']
 
 _io_op = st.one_of(
@@ -122,7 +122,7 @@ class Model:
                 elif k == 'write':
                     text.append(op['text'])
                 elif k == 'input':
-                    text.append(op['prompt'] + cal['suffix'])
+                    text.append(str(op['prompt']) + cal['suffix'])
                     used.append(self.queue.pop(0) if self.queue else cal['default'])
                 elif k == 'raise':
                     return True
